@@ -112,6 +112,31 @@ def collision_case(ctx, do_model=True):
             one(ctx, "line", len(parts), core, do_model, parts=parts)
 
 
+def reused_strategy(ctx):
+    """ONE strategy object used for several reductions one after the other (a follow-up pass, a tool that keeps its
+    strategy): every one of them returns its own core exactly"""
+    for n, cores in ((16, [(3, 12), (3,), (12,), ()]), (9, [(0, 8), (8,), (0, 4, 8), (4,)]), (5, [(0, 1, 2, 3, 4), (2,)])):
+        parts = atoms("line", n)
+        f = (b"", parts, [True] * n, b"")
+        st = strat.make_strategy("minimize", {})
+        index = {p: i for i, p in enumerate(parts)}
+        for r, core in enumerate(cores):
+            tc = strat.testcase_from_fields("line", f)
+            it = st.reduce(tc)
+            coreset, tests = set(core), 1
+            for attempt in it:
+                tests += 1
+                it.feedback(coreset <= {index[p] for p in attempt.parts})
+            got = [index[p] for p in it.testcase.parts]
+            ctx.evaluations += 1
+            ctx.bump("reused-strategy")
+            case = dict(kind="line", n=n, core=list(core), m=len(core), reduction_number=r + 1, reused_strategy_object=True)
+            if got != sorted(core):
+                ctx.fail("not-the-core", f"reduction #{r + 1} with one strategy object, n={n} core={list(core)}: final atoms {got}", case)
+            if tests > bound(n, len(core)):
+                ctx.fail("too-many-tests", f"reduction #{r + 1} with one strategy object, n={n} m={len(core)}: {tests} tests > bound", case)
+
+
 def on_disk(ctx, N, do_model=True):
     """the same claim through the real driver: `Lithium.run()` on a file, judged by the file left on disk and the
     number of times the test was called (m = n, m = 0 and everything between)"""
@@ -141,6 +166,7 @@ def on_disk(ctx, N, do_model=True):
 
 
 def search(ctx):
+    reused_strategy(ctx)
     collision_case(ctx, do_model=False)
     on_disk(ctx, 6, do_model=False)
     small(ctx, 9, do_model=False)
@@ -152,6 +178,7 @@ def run(ctx) -> int:
     proof = common.proof_stage(ctx.pid)
     N0 = 10 if ctx.thorough else 8
     collision_case(ctx)
+    reused_strategy(ctx)
     on_disk(ctx, 7 if ctx.thorough else 5)
     small(ctx, N0)
     ctx.exhaustive.append(f"every (n, core) with n <= {N0}")
